@@ -361,6 +361,20 @@ class InfraError(Exception):
 # --------------------------------------------------------------------------- context
 
 
+LOCAL_ZONES = ["UTC0", "Europe/Paris", "IST-5:30", "EST5EDT", "Pacific/Chatham", "America/St_Johns"]
+
+
+def local_timezone(i: int) -> str:
+    """Set the process's local timezone (TZ + tzset) to the i-th of a few zones and return its name:
+    nothing in the properties depends on where the process runs."""
+    import time
+
+    z = LOCAL_ZONES[i % len(LOCAL_ZONES)]
+    os.environ["TZ"] = z
+    time.tzset()
+    return z
+
+
 class ImplementationHang(Exception):
     pass
 
